@@ -71,6 +71,8 @@ def judge(prog, ctx, util, rule_prefix=""):
         elif h.verdict == "overflow":
             ctx.fail(rule_prefix + "B3", inst, h.call.where,
                      "unlimited copy of an arbitrarily long string into heap memory that was not sized for it: " + h.why, key="heapcopy:" + h.key)
+        elif h.verdict == "truncation":
+            ctx.fail(rule_prefix + "B3", inst, h.call.where, "text of any length is cut to a buffer that was not sized for it: " + h.why, key="heapcut:" + h.key)
         else:
             ctx.inconclusive(rule_prefix + "B3", inst, h.call.where, h.why)
     return arrays, sites, fits
